@@ -219,6 +219,17 @@ type XBarP struct{ Msg string }
 func (e XBarV) Error() string  { return e.Msg }
 func (e *XBarP) Error() string { return e.Msg }
 
+// XNilBar is a renamed type (was "*gen.XNilFoo") whose methods work on a nil
+// receiver: programs use its typed nil pointer as a sentinel value.
+type XNilBar struct{ Msg string }
+
+func (e *XNilBar) Error() string {
+	if e == nil {
+		return "TKUnilQ (nil receiver)"
+	}
+	return e.Msg
+}
+
 // BarMulti is a renamed multi-cause type (was "*gen.FooMulti") with a
 // decoder registered through RegisterMultiCauseDecoder.
 type BarMulti struct {
